@@ -545,15 +545,33 @@ def M6(ctx):
                 return "i" if x[3] == outer else ("j" if x[3] == inner else None)
         return None
 
-    def sc_assume(load_sc, i_sc, j_sc):
-        def pred(e):
-            if is_field(e, "rt::atomic::Store", "seq_cst"):
-                w = which(e)
-                return i_sc if w == "i" else (j_sc if w == "j" else None)
+    def sc_atom(e):
+        """Which of the three SeqCst facts a boolean expression states: 'load', 'i', 'j' (store of the outer / inner loop) -
+        whether a store records it as a flag (`store.seq_cst`) or as the ordering itself (`is_seq_cst(store.ordering)`)."""
+        if is_field(e, "rt::atomic::Store", "seq_cst"):
+            return which(e)
+        if e[0] == "call" and e[1] == "rt::atomic::is_seq_cst" and e[2]:
+            a0 = e[2][0]
+            if any(x[0] == "field" and x[3] == "rt::atomic::Store" for x in subexprs(a0)):
+                return which(a0)
+            return "load"
+        return None
+
+    def sc_assume(load_sc, i_sc, j_sc, others=None):
+        val = {"load": load_sc, "i": i_sc, "j": j_sc}
+
+        def a(body_, b_, t_, e):
+            pol = True
+            while e[0] == "unop" and e[1] == "Not":
+                e = e[2]
+                pol = not pol
+            w = sc_atom(e)
+            if w is not None and val.get(w) is not None:
+                return switch_targets_for(t_, val[w] == pol)
             return None
-        return assume_all(assume_scenario(prog, {"rt::atomic::FirstSeen::is_seen_by_current": False,
-                                                 "rt::atomic::FirstSeen::is_seen_before_yield": False,
-                                                 "rt::atomic::is_seq_cst": load_sc}), assume_expr(pred))
+        return assume_all(a, assume_scenario(prog, others if others is not None else
+                                             {"rt::atomic::FirstSeen::is_seen_by_current": False,
+                                              "rt::atomic::FirstSeen::is_seen_before_yield": False}))
     # reason (c) is the conjunction load-is-SeqCst && store_i.seq_cst && store_j.seq_cst: with (a), (b) false, every one of the
     # seven assignments falsifying the conjunction must leave the candidate alone
     reached = set()
@@ -569,11 +587,10 @@ def M6(ctx):
                     reached.add(inner)
     # each single reason alone must be able to prune (the three documented reasons are all present)
     reasons = {}
-    for nm, table in (("seen-by-current", {"rt::atomic::FirstSeen::is_seen_by_current": True}),
-                      ("seen-before-yield", {"rt::atomic::FirstSeen::is_seen_by_current": False, "rt::atomic::FirstSeen::is_seen_before_yield": True}),
-                      ("seq-cst", {"rt::atomic::FirstSeen::is_seen_by_current": False, "rt::atomic::FirstSeen::is_seen_before_yield": False,
-                                   "rt::atomic::is_seq_cst": True})):
-        a = assume_all(assume_scenario(prog, table), assume_expr(lambda e: True if is_field(e, "rt::atomic::Store", "seq_cst") else None))
+    for nm, table, sc in (("seen-by-current", {"rt::atomic::FirstSeen::is_seen_by_current": True}, None),
+                          ("seen-before-yield", {"rt::atomic::FirstSeen::is_seen_by_current": False, "rt::atomic::FirstSeen::is_seen_before_yield": True}, None),
+                          ("seq-cst", {"rt::atomic::FirstSeen::is_seen_by_current": False, "rt::atomic::FirstSeen::is_seen_before_yield": False}, True)):
+        a = sc_assume(sc, sc, sc, others=table)
         r2, _ = PEval(body, a).run(start=tgt, stop_blocks={outer, inner})
         reasons[nm] = outer in r2
     if outer not in reached and inner in reached and all(reasons.values()):
@@ -654,6 +671,12 @@ def N1(ctx):
                         consts[de[1].get("int")] = g
             sn = fi.body.local_name(1) or "_1"
             ok_into = consts.get(1) == [(sn, True)] and consts.get(0) == [(sn, False)]
+            # the same encoding spelled with the language's own bool -> integer conversion (`self as u64`, `u64::from(self)`)
+            sei = strip(ei)
+            if (sei[0] == "cast" and strip(sei[2])[0] == "param" and strip(sei[2])[1] == 1 and sei[4] == "u64") or \
+                    (sei[0] == "call" and sei[1] in ("std::convert::From::from", "std::convert::Into::into") and len(sei[2]) == 1 and
+                     strip(sei[2][0])[0] == "param" and strip(sei[2][0])[1] == 1):
+                ok_into = True
             if ok_from and ok_into:
                 ctx.ok("N1", "Numeric for bool", "false<->0, true<->1, decode by != 0", [fi.loc(), ff.loc()])
             else:
